@@ -763,7 +763,7 @@ impl<'a> Run<'a> {
                 self.note_listing_read(start);
                 if self.cfg.wants(Aspect::Tree) {
                     let m = self.model_nodes_for_compare(start);
-                    let mask = CmpMask { short: false, attr: true, size: false, times: false, data: true, dots: true };
+                    let mask = CmpMask { short: false, attr: true, size: false, times: false, data: true, dots: true, dir_times: true };
                     if let Err(e) = tree::compare("the library", &nodes, "the model", &m, mask, &base) {
                         return Err(self.viol(Aspect::Tree, e));
                     }
@@ -1677,7 +1677,7 @@ impl<'a> Run<'a> {
                 if self.cfg.wants(Aspect::Tree) || self.cfg.wants(Aspect::Times) {
                     let rt = tree::refdec_tree(&dec);
                     let mt = self.model.tnodes(0, true);
-                    let mask = CmpMask { short: false, attr: true, size: true, times: false, data: true, dots: true };
+                    let mask = CmpMask { short: false, attr: true, size: true, times: false, data: true, dots: true, dir_times: true };
                     if self.cfg.wants(Aspect::Tree) {
                         if let Err(e) = tree::compare("the raw image", &rt, "the model", &mt, mask, "/") {
                             return Err(self.viol(Aspect::Tree, format!("after {:?}: {}", op, e)));
@@ -1955,7 +1955,7 @@ impl<'a> Run<'a> {
             if self.cfg.wants(Aspect::Tree) || self.cfg.wants(Aspect::File) {
                 let rt = tree::refdec_tree(&dec);
                 let mt = self.model.tnodes(0, true);
-                let mask = CmpMask { short: false, attr: true, size: true, times: false, data: true, dots: true };
+                let mask = CmpMask { short: false, attr: true, size: true, times: false, data: true, dots: true, dir_times: true };
                 if let Err(e) = tree::compare("the raw image", &rt, "the model", &mt, mask, "/") {
                     let a = if self.cfg.wants(Aspect::Tree) { Aspect::Tree } else { Aspect::File };
                     return Err(self.viol(a, format!("at the end of the history: {}", e)));
